@@ -297,6 +297,88 @@ def inline_consts(fn, ev):
     return all(is_c(a) for a in ev["args"])
 
 
+_EXIT_TESTS = {}
+
+
+def _succ(t):
+    k = t.get("k")
+    if k == "switch":
+        return [b for _, b in t.get("targets", [])] + [t.get("otherwise")]
+    out = [t.get("target")]
+    return [b for b in out if b is not None]
+
+
+def _discr_switch(bb, t):
+    """is the switch operand an enum discriminant read in this block?  (a constant there only says which constructor an earlier, possibly
+    symbolic, decision on this path produced; a constant integer comparison says the loop test itself is decided by constants)"""
+    d = t.get("discr") or {}
+    loc = (d.get("p") or {}).get("local")
+    for s_ in reversed(bb.get("stmts") or []):
+        if s_.get("k") == "assign" and (s_.get("p") or {}).get("local") == loc and not (s_.get("p") or {}).get("proj"):
+            return (s_.get("rv") or {}).get("k") == "discr"
+    return False
+
+
+def exit_tests(fn):
+    """blocks of fn whose `switch` decides whether a loop is left: the block lies on a cycle of the CFG and one of its successors does not"""
+    key = id(fn)
+    if key in _EXIT_TESTS:
+        return _EXIT_TESTS[key]
+    blocks = fn.blocks or []
+    n = len(blocks)
+    succ = [[b for b in _succ(bl.get("term") or {}) if isinstance(b, int) and 0 <= b < n] for bl in blocks]
+    index, low, on, stack, comp = {}, {}, set(), [], {}
+    counter = [0]
+    for root in range(n):
+        if root in index:
+            continue
+        work = [(root, 0)]
+        while work:
+            v, i = work.pop()
+            if i == 0:
+                index[v] = low[v] = counter[0]
+                counter[0] += 1
+                stack.append(v)
+                on.add(v)
+            recursed = False
+            while i < len(succ[v]):
+                w = succ[v][i]
+                i += 1
+                if w not in index:
+                    work.append((v, i))
+                    work.append((w, 0))
+                    recursed = True
+                    break
+                if w in on:
+                    low[v] = min(low[v], index[w])
+            if recursed:
+                continue
+            if low[v] == index[v]:
+                members = []
+                while True:
+                    w = stack.pop()
+                    on.discard(w)
+                    members.append(w)
+                    if w == v:
+                        break
+                for w in members:
+                    comp[w] = (v, len(members))
+            if work:
+                u = work[-1][0]
+                low[u] = min(low[u], low[v])
+    out = set()
+    for v in range(n):
+        t = blocks[v].get("term") or {}
+        if t.get("k") != "switch":
+            continue
+        cv = comp.get(v)
+        cyclic = cv is not None and (cv[1] > 1 or v in succ[v])
+        if cyclic and any(comp.get(w, (None,))[0] != cv[0] for w in succ[v]):
+            out.add(v)
+    _EXIT_TESTS[key] = out
+    return out
+
+
 class HDict(dict):
     """a callee description inside a term: hashable (by the function it names) so that terms can be dictionary keys"""
 
@@ -305,7 +387,7 @@ class HDict(dict):
 
 
 class State:
-    __slots__ = ("frames", "store", "pc", "events", "visits", "steps", "tagfacts", "status", "ret", "ids", "visit_mark", "bonus")
+    __slots__ = ("frames", "store", "pc", "events", "visits", "steps", "tagfacts", "status", "ret", "ids", "visit_mark", "bonus", "cmark")
 
     def __init__(self):
         self.frames = []
@@ -315,6 +397,7 @@ class State:
         self.visits = {}
         self.visit_mark = {}
         self.bonus = 0
+        self.cmark = {}
         self.steps = 0
         self.tagfacts = {}
         self.status = None
@@ -330,6 +413,7 @@ class State:
         s.visits = dict(self.visits)
         s.visit_mark = dict(self.visit_mark)
         s.bonus = self.bonus
+        s.cmark = dict(self.cmark)
         s.steps = self.steps
         s.tagfacts = dict(self.tagfacts)
         s.ids = self.ids
@@ -826,6 +910,14 @@ class Engine:
                 d = self.operand(st, fr, t["discr"])
                 targets = t["targets"]
                 if is_c(d):
+                    if self.free_constant_loops and st.visits.get(vk, 0) >= 2 and bbi in exit_tests(fn) and not _discr_switch(bb, t):
+                        # a loop test re-evaluated on constants (`while shift < u32::BITS`): like an iterator over a constant range, such an
+                        # iteration does not use up the loop bound (credited once per iteration, whichever way it is recognised)
+                        last, cnt = st.cmark.get(vk, (st.bonus, 0))
+                        if last == st.bonus and cnt < 24:       # (bounded: no loop in scope has more than 19 constant iterations)
+                            st.bonus += 1
+                            cnt += 1
+                        st.cmark[vk] = (st.bonus, cnt)
                     nxt = t["otherwise"]
                     for v, b in targets:
                         if v == d[1]:
@@ -2347,6 +2439,8 @@ def _m_split_first(eng, st, callee, args, ev):
     ln = mk_bin("Sub", hi0, lo0, "usize")
     one = mk_bin("Add", lo0, C(1, "usize"), "usize")
     pay = ("agg", "tuple", None, None, ("0", "1"), (("ref", ("I", b0, lo0)), mk_slice(b0, one, hi0)))
+    if is_c(ln) and ln[1] > 0:
+        st.bonus += 1        # peeling a slice of constant length (`while let Some((x, rest)) = s.split_first()`): decided by constants
     return mk_optif(mk_bin("Ne", ln, C(0, "usize"), "usize"), pay)
 
 
@@ -2500,6 +2594,8 @@ def _m_iter_next(eng, st, callee, args, ev):
                 ln = mk_bin("Sub", hi0, lo0, "usize")
                 it2 = it[:5] + ((mk_bin("Add", pos, C(1, "usize"), "usize"), x),) + it[6:]
                 eng.write(st, r[1], v[:5] + ((mk_bin("Add", cnt, C(1, "usize"), "usize"), it2),) + v[6:])
+                if is_c(pos) and is_c(ln) and pos[1] < ln[1]:
+                    st.bonus += 1        # constant-length slice: the iteration's existence is decided by constants
                 elem = ("ref", ("I", b0, mk_bin("Add", lo0, pos, "usize")))
                 return mk_optif(mk_bin("Lt", pos, ln, "usize"), ("agg", "tuple", None, None, ("0", "1"), (cnt, elem)))
         if v[0] == "agg" and v[1] == "adt" and v[2] == "core::slice::iter::Iter":
@@ -2509,6 +2605,8 @@ def _m_iter_next(eng, st, callee, args, ev):
                 b0, lo0, hi0 = sp
                 ln = mk_bin("Sub", hi0, lo0, "usize")
                 eng.write(st, r[1], v[:5] + ((mk_bin("Add", pos, C(1, "usize"), "usize"), x),) + v[6:])
+                if is_c(pos) and is_c(ln) and pos[1] < ln[1]:
+                    st.bonus += 1
                 return mk_optif(mk_bin("Lt", pos, ln, "usize"), ("ref", ("I", b0, mk_bin("Add", lo0, pos, "usize"))))
     return _m_range_next(eng, st, callee, args, ev)
 
